@@ -237,7 +237,7 @@ func (engine) Run(t *testing.T, tape *core.Tape, opt core.Options) (res *core.Ru
 	}
 	s.maxSteps = opt.Int("maxsteps", 60000)
 	s.wallStart = wallNow()
-	s.maxWall = time.Duration(opt.Int("maxwall", 60)) * time.Second
+	s.maxWall = time.Duration(opt.Int("maxwall", 180)) * time.Second
 	s.mkScratch()
 	defer os.RemoveAll(s.scratch)
 	defer func() {
